@@ -119,7 +119,7 @@ def main(argv=None):
         return replay(prop, a.replay)
 
     from .props import PROPS
-    meta = PROPS[prop]
+    meta = PROPS.get(prop, dict(level="exploration"))
     lock = load_lock()
     d = dsum = None
     if not a.no_d:
